@@ -66,7 +66,8 @@ Definition in_any (rs : list rect) (p : cell) : bool := existsb (fun r => cell_i
 
 (* every changed cell lies in the damage handed to the root, belongs to a window, and
    shows something that window's program can draw THERE: its own character for the cell's
-   position relative to it, a blank or a line glyph *)
+   position relative to it, a blank or a line glyph (which glyph is compared
+   exactly by the correspondence check: the model merges segment bits under the mask rule) *)
 Definition c02_cells_checkb (app : Z -> Z -> Z -> Z) (t : wtree) (nl nc : Z)
   (before after : cell -> Z) (damage : list rect) : bool :=
   forallb (fun p =>
@@ -74,7 +75,7 @@ Definition c02_cells_checkb (app : Z -> Z -> Z -> Z) (t : wtree) (nl nc : Z)
              in_any damage p &&
              match owner t p with
              | Some (id, q) =>
-               (after p =? app id (fst q) (snd q)) || (after p =? BLANK) || (after p =? LINECH)
+               (after p =? app id (fst q) (snd q)) || (after p =? BLANK) || is_line (after p)
              | None => false
              end) (grid_cells nl nc).
 
@@ -218,3 +219,94 @@ Definition c15_focus_checkb (t : wtree) (w : Z) (evs : list fev) : bool :=
   outs_before_ins evs false &&
   fev_same (filter (fun e => negb (is_in e)) evs) outs &&
   fev_same (filter is_in evs) ins.
+
+(* ------------------------------------------------------------------------------------ *)
+(* C01 with pending damage (handlers that re-enter the window layer during the flush add
+   damage that only the next flush renders): every cell OUTSIDE the pending damage shows the
+   composition, and whenever damage is pending the flags that make the next flush render it
+   are set *)
+Definition c01_pending_checkb (app : Z -> Z -> Z -> Z) (t : wtree) (nl nc : Z) (grid : cell -> Z)
+  (damage : list rect) (nexp later : bool) : bool :=
+  forallb (fun p => in_any damage p ||
+                    match compose app t p with
+                    | Some c => grid p =? c
+                    | None => true
+                    end) (grid_cells nl nc) &&
+  (match damage with [] => true | _ :: _ => nexp && later end).
+
+(* ------------------------------------------------------------------------------------ *)
+(* C02, exact form: what one flush does to the screen when the handlers run arbitrary
+   drawing programs.  A cell inside the damage that belongs to window w ends up with what
+   w's OWN program, run on an empty cell at the cell's position relative to w, leaves there
+   (nothing, if the program does not touch it or skips it last); every other cell keeps
+   its content.  Line segments accumulate within the owner's program only. *)
+Definition cell_after (app : Z -> Z -> Z -> Z) (prog : list dop) (id : Z) (handed : rect) (nl nc : Z)
+  (q : cell) : option Z :=
+  fold_left (fun v o =>
+               match dop_cells app id handed nl nc o q with
+               | Some (PSet c) => Some c
+               | Some PSkip => None
+               | Some (PLine b) =>
+                 Some (LINEBASE + Z.lor (match v with Some c => if is_line c then c - LINEBASE else 0 | None => 0 end) b)
+               | None => v
+               end) prog None.
+
+Definition c02_exact_checkb (app : Z -> Z -> Z -> Z) (progs : Z -> list dop) (t : wtree) (nl nc : Z)
+  (before after : cell -> Z) (log : list (Z * rect)) : bool :=
+  let damage := map snd (filter (fun e => fst e =? t_id t) log) in
+  forallb (fun p =>
+             match (if in_any damage p then owner t p else None) with
+             | Some (w, q) =>
+               match find (fun e => (fst e =? w) && cell_inb (snd e) q) log with
+               | Some (_, handed) =>
+                 match cell_after app (progs w) w handed nl nc q with
+                 | Some c => after p =? c
+                 | None => after p =? before p
+                 end
+               | None => after p =? before p
+               end
+             | None => after p =? before p
+             end) (grid_cells nl nc).
+
+(* ------------------------------------------------------------------------------------ *)
+(* What a flush may and may not do to the tree and with the damage (oracle clauses that
+   compare the state right before a flush with the state after it)                       *)
+
+(* C01: queued restack requests take effect at the flush IN THE ORDER they were made *)
+Definition restack_spec (reqs : list (hchange * Z)) (t : wtree) : wtree :=
+  fold_left (fun t e => match t_parent_id (snd e) t with
+                        | Some pid => t_upd_kids (apply_hchange (fst e) (snd e)) pid t
+                        | None => t
+                        end) reqs t.
+
+Fixpoint zlist_eqb (a b : list Z) : bool :=
+  match a, b with
+  | [], [] => true
+  | x :: r, y :: r' => (x =? y) && zlist_eqb r r'
+  | _, _ => false
+  end.
+
+Definition c01_restack_checkb (reqs : list (hchange * Z)) (before after : wtree) : bool :=
+  zlist_eqb (sub_ids (restack_spec reqs before)) (sub_ids after).
+
+(* C02: the rectangles handed to the root window are damage: each lies inside the region
+   that was pending when the flush began (checked when no restack is applied by the flush) *)
+Definition rect_cells (r : rect) : list cell :=
+  flat_map (fun y => map (fun x => (y, x)) (zrange (left r) (cols r))) (zrange (top r) (lines r)).
+
+Definition c02_within_pending_checkb (rootid : Z) (pending : list rect) (log : list (Z * rect)) : bool :=
+  forallb (fun e => negb (fst e =? rootid) || forallb (in_any pending) (rect_cells (snd e))) log.
+
+(* C15: a flush (which applies the queued restacks) moves no focus: every window keeps its
+   focused-child link and its focused flag *)
+Definition c15_links_kept_checkb (before after : wtree) : bool :=
+  forallb (fun id => match t_find id before, t_find id after with
+                     | Some a, Some b =>
+                       Bool.eqb (w_focused (t_info a)) (w_focused (t_info b)) &&
+                       match w_fchild (t_info a), w_fchild (t_info b) with
+                       | Some x, Some y => x =? y
+                       | None, None => true
+                       | _, _ => false
+                       end
+                     | _, _ => false
+                     end) (sub_ids after).
